@@ -1,6 +1,95 @@
 """C16 — Hull / Minkowski (structural clause): Minkowski difference is not commutative, so its operands are never
 exchanged; operand reordering anywhere in the evaluator only under a commutativity test (rule shared with C03.4)."""
 import c03
+import cfg as C
+import tree as T
+
+
+def rule_batches(chk, db, cfgname):
+    chk.rule('C16.2', 'batched sweeps (Minkowski): inside a loop that advances an offset, a for_each_n whose count is '
+             'computed from that offset hands the offset (or a value derived from it) to the functor it runs - a '
+             'functor that sees only the in-batch index processes the first batch again and again')
+    n = 0
+    for f in db.functions.values():
+        if not f.get('blocks') or not f['file'].startswith('src/'):
+            continue
+        g = None
+        for b in f['blocks']:
+            for e in b['ev']:
+                if not (e.get('k') == 'call' and T.short(e.get('fn', '')) in ('for_each_n', 'for_each') and
+                        T.basename(e.get('fn', '')).startswith('manifold::')):
+                    continue
+                g = g or C.Cfg(f)
+                loops = g.loops()
+                body = None
+                for h, blocks in loops.items():
+                    if b['id'] in blocks and (body is None or len(blocks) < len(body)):
+                        body = blocks
+                if body is None:
+                    continue
+                # induction variables of the loop: locals updated by `v += c` inside the loop
+                ind = set()
+                for bb in f['blocks']:
+                    if bb['id'] in body:
+                        for ee in bb['ev']:
+                            if ee.get('k') == 'bin' and ee.get('op') == '+=' and T.strip(ee['l']).get('k') == 'var':
+                                ind.add(T.strip(ee['l'])['n'])
+                if not ind:
+                    continue
+                # locals derived from them inside the loop
+                derived = set(ind)
+                changed = True
+                while changed:
+                    changed = False
+                    for bb in f['blocks']:
+                        if bb['id'] not in body:
+                            continue
+                        for ee in bb['ev']:
+                            if ee.get('k') == 'decl':
+                                for v in ee['vars']:
+                                    if v.get('init') is not None and v['n'] not in derived and any(
+                                            isinstance(y, dict) and y.get('k') == 'var' and y.get('n') in derived
+                                            for y in T.walk(v['init'])):
+                                        derived.add(v['n'])
+                                        changed = True
+                count_args = [a for a in e.get('args', [])[:-1]]
+                dep = any(isinstance(y, dict) and y.get('k') == 'var' and y.get('n') in derived
+                          for a in count_args for y in T.walk(a))
+                if not dep:
+                    continue
+                n += 1
+                lam = [x for x in T.walk(e['args'][-1]) if isinstance(x, dict) and x.get('k') == 'lambda']
+                caps = {c['n'] for x in lam for c in x.get('caps', [])}
+                # captured lambdas (by reference) that themselves capture the offset count too
+                inner = set(caps)
+                for x in lam:
+                    for c in x.get('caps', []):
+                        for bb in f['blocks']:
+                            for ee in bb['ev']:
+                                if ee.get('k') == 'decl':
+                                    for v in ee['vars']:
+                                        if v['n'] == c['n'] and v.get('init') is not None:
+                                            for y in T.walk(v['init']):
+                                                if isinstance(y, dict) and y.get('k') == 'lambda':
+                                                    inner |= {cc['n'] for cc in y.get('caps', [])}
+                count_names = set(T.strip_copy(a).get('n') for a in count_args if T.strip_copy(a).get('k') == 'var')
+                scalars = set()
+                for bb in f['blocks']:
+                    for ee in bb['ev']:
+                        if ee.get('k') == 'decl':
+                            for v in ee['vars']:
+                                if v['n'] in derived and db.T(f, v['t']).get('k') == 'i':
+                                    scalars.add(v['n'])
+                ok = bool(ind & inner) or bool((scalars & inner) - count_names)
+                chk.obligation(ok, {'function': f['name'][:70], 'line': e.get('ln'), 'loop offset': sorted(ind),
+                                    'functor captures': sorted(caps)[:8], 'sees the offset': ok})
+                if not ok:
+                    chk.violation('C16.2', f, 'batch functor ignores offset %s' % ','.join(sorted(ind)),
+                                  'the loop advances %s and sizes each batch from it, but the functor run for the batch '
+                                  'captures only %s: every batch sweeps the items of the first one, the rest of the '
+                                  'operand is never processed' % (','.join(sorted(ind)), sorted(caps)[:6]),
+                                  line=e.get('ln'), cfg=cfgname)
+    chk.count('c16.2.batched_loops', n)
 
 
 def main(chk, tier):
@@ -13,7 +102,9 @@ def main(chk, tier):
         chk.units = len(db.units)
         chk.functions_analysed += len(db.functions)
         c03.rule_operand_order(chk, db, cfgname, tab, 'C16.1')
+        rule_batches(chk, db, cfgname)
     chk.floor('c16.1.reorder_events', 3 * len(configs))
+    chk.floor('c16.2.batched_loops', len(configs))
     return chk.finish(
         'Operand-order rule over the three places where Boolean/Minkowski operands are reordered (CsgNode::Boolean '
         'delegation, BatchUnion swap, Impl::Minkowski swap): each is control-dependent on a test, or a constant at '
